@@ -136,10 +136,12 @@ GuestCall(f, c) ==
                       /\ mts' = [mts EXCEPT ![tls] = Toggle(tls)]
                       /\ Emit(<<call, HookEv("out", "CALLBACK", f, tls),
                                 [e |-> "cb_run", node |-> node, fn |-> f, sbref |-> tls],
-                                [e |-> "setstate", s |-> tls, state |-> Toggle(tls)]>>)
+                                [e |-> "setstate", s |-> tls, state |-> Toggle(tls)],
+                                [e |-> "tmpsbx", node |-> node, out |-> "ok"]>>)
                  ELSE /\ mts' = mts
                       /\ Emit(<<call, HookEv("out", "CALLBACK", f, tls),
-                                [e |-> "cb_run", node |-> node, fn |-> f, sbref |-> tls]>>)
+                                [e |-> "cb_run", node |-> node, fn |-> f, sbref |-> tls],
+                                [e |-> "tmpsbx", node |-> node, out |-> "ok"]>>)
 
 CbReturn(how) ==
   /\ ~done /\ ~unw
